@@ -107,6 +107,13 @@ def r_dispatch(ctx, prog, codecs=None, which=None):
                 ctx.instance(R, ok, call, key,
                              '%s: codec %d (%s, control block %s) is dispatched to %s which takes %s' %
                              (f.name, c, CODEC_NAMES.get(c, '?'), info['struct'], g.name, st))
+                # the dispatcher's own arguments are forwarded in their order (two callbacks of the same type, swapped, compile)
+                fw = [tt.term(a) for a in call.args]
+                pos = [t[1] for t in fw if t[0] == 'param']
+                if len(pos) == len(fw) and len(fw) == len(f.params) and len(fw) >= 3:
+                    ctx.instance(R, pos == sorted(pos), call, key + ':forward-order',
+                                 '%s forwards its arguments to %s in the order %s: two parameters of the same type are exchanged' %
+                                 (f.name, g.name, pos))
     ctx.need(ndisp >= (8 if which is None else min(8, len([w for w in which if w != 'of_create_codec_instance']))), R,
              'found only %d dispatchers switching on ses->codec_id' % ndisp)
     return cm
